@@ -1,4 +1,5 @@
 import Svgbob.Proofs.DocSafe
+import Svgbob.Model.Convert
 /-!
 # C08 — input text can never inject markup into the output document
 
@@ -42,6 +43,20 @@ theorem document_is_lexically_safe (len : List Char → Nat) (cfg : Cfg) (cells 
     (css : List (List Char × List Char)) (accepted : List Frag) (groups : List (List Frag)) :
     (svgRoot len cfg cells css accepted groups).Safe :=
   svgRoot_safe len cfg cells css accepted groups
+
+/-- **the whole conversion** (`Model/Convert.convertDoc`, the function the driver serializes for the
+byte-level correspondence): whatever the text — drawing characters, quoted strings, `{tags}`, legend
+names and declarations — the document it returns is lexically safe: element and attribute names come
+from svgbob's own closed vocabulary, text leaves and the style sheet hold no `<` and only the six
+fixed references, attribute values hold no quote, `<` or `&` -/
+theorem whole_conversion_is_lexically_safe (env : Env) (cfg : Cfg) (cat : Catalogue) (input : List Char)
+    (root : Node) (h : convertDoc env cfg cat input = some root) : root.Safe := by
+  unfold convertDoc at h
+  simp only at h
+  split at h
+  · cases h
+  · cases h
+    exact document_is_lexically_safe _ cfg _ _ _ _
 
 /-! Tests (labelled as tests). -/
 example : parseCssTag "{a,b_1}".toList = some ["a".toList, "b_1".toList] := by decide
